@@ -253,6 +253,16 @@ func (w *World) Structural() []structural {
 		}
 		for _, b := range f.Blocks {
 			for _, in := range b.Instrs {
+				if mu, ok := in.(*ssa.MapUpdate); ok {
+					// a map received by value is the caller's map: writing an entry changes what the caller sees
+					if _, isMap := mu.Map.Type().Underlying().(*types.Map); isMap {
+						if src := resliceOfForeign(mu.Map, declared, true, false); src != "" {
+							offences[pk] = append(offences[pk], fmt.Sprintf("%s writes an entry of a map held by %s", key, src))
+							offPos[pk] = w.Fset.Position(mu.Pos())
+						}
+					}
+					continue
+				}
 				if st, ok := in.(*ssa.Store); ok {
 					// a store to an element of a slice received by value (a parameter or a field of a by-value parameter)
 					addr := st.Addr
@@ -299,6 +309,13 @@ func (w *World) Structural() []structural {
 					}
 				}
 				bi, ok := call.Call.Value.(*ssa.Builtin)
+				if ok && bi.Name() == "delete" && len(call.Call.Args) > 0 {
+					if src := resliceOfForeign(call.Call.Args[0], declared, true, false); src != "" {
+						offences[pk] = append(offences[pk], fmt.Sprintf("%s deletes an entry of a map held by %s", key, src))
+						offPos[pk] = w.Fset.Position(call.Pos())
+					}
+					continue
+				}
 				if ok && bi.Name() == "copy" && len(call.Call.Args) > 0 {
 					if src := resliceOfForeign(call.Call.Args[0], declared, true, false); src != "" {
 						offences[pk] = append(offences[pk], fmt.Sprintf("%s copies into %s", key, src))
@@ -328,8 +345,8 @@ func (w *World) Structural() []structural {
 			continue
 		}
 		props := append([]string{}, allClaimed...)
-		out = append(out, structural{"structural#slices-received-by-value-are-not-written:" + pk, props, len(offences[pk]) == 0,
-			fmt.Sprintf("writes through a slice the caller can see - an element store, or an append to a re-slice (the elements behind the new length are overwritten in place): %v", offences[pk]), offPos[pk]})
+		out = append(out, structural{"structural#slices-and-maps-received-by-value-are-not-written:" + pk, props, len(offences[pk]) == 0,
+			fmt.Sprintf("writes through a slice or map the caller can see - an element store, a sort, a copy, an append to a re-slice (the elements behind the new length are overwritten in place), a map entry: %v", offences[pk]), offPos[pk]})
 	}
 	out = append(out, structural{"structural#globals-written-only-in-init", []string{"C08", "C12", "C05", "C11"}, len(globalWrites) == 0, fmt.Sprintf("writes to package-level variables outside init: %v", globalWrites), token.Position{}})
 	return out
